@@ -116,3 +116,43 @@ def stack_op(op, n=300000, dotted=False, fast=True, timeout=180):
     except subprocess.TimeoutExpired:
         return None
     return p.returncode == 0 and '"ok":true' in p.stdout
+
+
+def parse_batch(cases, src="slice", api="single", fast=True, timeout=600):
+    """cases: list of (bytes, opts string) -> list of dicts (one per case, in order)"""
+    inp = "".join("%s\t%s\n" % (opts_str(o), bytes(d).hex()) for d, o in cases)
+    try:
+        p = subprocess.run([binary(fast), "parsebatch", src, api], input=inp, capture_output=True, text=True, timeout=timeout)
+    except subprocess.TimeoutExpired:
+        return [{"crash": "timeout"}] * len(cases)
+    lines = p.stdout.split("\n")
+    out = []
+    for i in range(len(cases)):
+        try:
+            out.append(json.loads(lines[i]))
+        except Exception:  # noqa
+            out.append({"crash": "no output (exit %d): %s" % (p.returncode, p.stderr[-200:])})
+    return out
+
+
+def print_batch(cases, fast=True, timeout=600):
+    """cases: list of (print opts string | 'plain', descriptor) -> list of bytes | 'ERR' | 'PANIC' | None"""
+    inp = "".join("%s\t%s\n" % (o, d) for o, d in cases)
+    try:
+        p = subprocess.run([binary(fast), "printbatch"], input=inp, capture_output=True, text=True, timeout=timeout)
+    except subprocess.TimeoutExpired:
+        return [None] * len(cases)
+    lines = p.stdout.split("\n")
+    out = []
+    for i in range(len(cases)):
+        ln = lines[i] if i < len(lines) else None
+        if ln is None or (p.returncode != 0 and i >= len(lines) - 1):
+            out.append(None)
+        elif ln in ("ERR", "PANIC"):
+            out.append(ln)
+        else:
+            try:
+                out.append(bytes.fromhex(ln))
+            except ValueError:
+                out.append(None)
+    return out
